@@ -8,6 +8,7 @@ quantity vectors are equal to each other within some tolerance.
 * `assert_equal_vectors` asserts that two quantity vectors are equal.
 """
 
+from math import inf
 from typing import Optional, SupportsFloat
 from pytest import approx
 from sympy import N, re, im
@@ -33,6 +34,11 @@ def approx_equal_numbers(
 
     For more information, refer to the documentation of `pytest.approx`.
     """
+
+    # infinite value is only equal to itself. Otherwise infinite ``lhs`` gives infinite default
+    # absolute tolerance and appears to be equal to any ``rhs``
+    if abs(lhs) == inf or abs(rhs) == inf:
+        return bool(lhs == rhs)
 
     if relative_tolerance is None:
         relative_tolerance = APPROX_RELATIVE_TOLERANCE
